@@ -222,8 +222,8 @@ fn interrogate(run: &Run, hist: &[Op], s: &Scheme, m: &Model) {
         bad("counts differ from the reference".into());
     }
     for ty in [Type::Int, Type::Bytes, Type::Ip, Type::Bool] {
-        let got = s.get_list(&ty).map(|l| l.get_type());
-        let want = if m.lists.contains(&ty) { Some(ty) } else { None };
+        let got = guarded(|| s.get_list(&ty).map(|l| l.get_type()));
+        let want = Ok(if m.lists.contains(&ty) { Some(ty) } else { None });
         if got != want {
             bad(format!("get_list({ty:?}) = {got:?}, reference {want:?}"));
         }
@@ -310,7 +310,13 @@ pub fn run(tier: Tier, seed: u64) -> i32 {
             for op in &all_ops {
                 let mut h = fr[fi].clone();
                 h.push(*op);
-                match replay_history(&h) {
+                let hc = h.clone();
+                let body = guarded(|| {
+                let replayed = match guarded(|| replay_history(&h)) {
+                    Ok(r) => r,
+                    Err(p) => Err(p),
+                };
+                match replayed {
                     Err(p) => run.violation(
                         format!("{ID}:panic:{h:?}"),
                         p,
@@ -351,8 +357,47 @@ pub fn run(tier: Tier, seed: u64) -> i32 {
                                 );
                             }
                         }
-                        local.push((h, observe(&s)));
+                        // always on: each list type resolves to the list registered for it
+                        for ty in [Type::Int, Type::Bytes] {
+                            let got = guarded(|| s.get_list(&ty).map(|l| l.get_type()));
+                            let want = if m.lists.contains(&ty) { Some(ty) } else { None };
+                            if got != Ok(want) {
+                                run.violation(
+                                    format!("{ID}:get-list:{h:?}"),
+                                    format!("history {h:?}: get_list({ty:?}) gives a list of type {got:?}, reference {want:?}"),
+                                    json!({"kind": "c16-history", "history": h}),
+                                );
+                            }
+                        }
+                        // States are merged on what the built scheme shows - but "a refused call
+                        // changes nothing" is the very thing being checked, so a history that
+                        // contains a refusal of some kind is kept apart from one that does not:
+                        // the kinds of refusals met so far are part of the state.
+                        let mut refused: std::collections::BTreeSet<String> = std::collections::BTreeSet::new();
+                        let mut mm = Model::default();
+                        for op in &h {
+                            let o = mm.apply(*op);
+                            if o != Outcome::Ok {
+                                let class = match op {
+                                    Op::Field(_) => "field",
+                                    Op::OptField(_) => "optional field",
+                                    Op::Function(_) => "function",
+                                    Op::ListIntAlways | Op::ListIntNever => "int list",
+                                    Op::ListBytesNever => "bytes list",
+                                };
+                                refused.insert(format!("{class} refused: {o:?}"));
+                            }
+                        }
+                        local.push((h, format!("{} after refusals {refused:?}", observe(&s))));
                     }
+                }
+                });
+                if let Err(p) = body {
+                    run.violation(
+                        format!("{ID}:panic:{hc:?}"),
+                        format!("history {hc:?}: building or interrogating the scheme panicked: {p}"),
+                        json!({"kind": "c16-history", "history": hc}),
+                    );
                 }
             }
             results.lock().unwrap().extend(local);
